@@ -173,6 +173,10 @@ FUNCS = {
     "batch": ("lambda d: d['x'] + d['y']", lambda rng: {"x": np.array([rng.choice([0.0, 1.0]) for _ in range(rng.choice([1, 2]))]), "y": np.array([1.0, 2.0])[: rng.choice([1, 2])]}),
     "kwargs": ("lambda x, k=1: x * k", lambda rng: rng.choice([0.0, 1.0, 2.5, 3])),
     "two": ("lambda x, y: x - y", lambda rng: rng.choice([0.0, 1.0, 2.5, 3])),
+    # a function that shows the type of its argument: 1, True, 1.0, numpy.float64(1.0), numpy.int64(1) are five arguments
+    "typed": ("lambda x: type(x).__name__ + ':' + repr(x * 1)", lambda rng: rng.choice([1, True, 1.0, np.float64(1.0), np.int64(1), 0, False, 0.0, np.float64(0.0), -4.0, np.float64(-4.0)])),
+    # a read-only window on a buffer that its owner refills
+    "window": ("lambda a: a * 2 + 1", lambda rng: _readonly_view(np.array([rng.choice([0.0, 1.0, 2.5]) for _ in range(rng.choice([1, 2, 3]))]))),
     # an event object with attributes, a DataFrame: neither dict nor array, both refillable in place
     "attrs": ("lambda ev: ev.x * 2 + ev.y", lambda rng: Rec(x=rng.choice([0.0, 1.0, 2.5]), y=rng.choice([0.5, 1, 2]))),
     "frame": ("lambda d: (d['x'] * 2 + 1).to_numpy()", lambda rng: __import__("pandas").DataFrame({"x": [rng.choice([0.0, 1.0, 2.5]) for _ in range(rng.choice([1, 2]))]})),
@@ -182,6 +186,12 @@ FUNCS = {
 }
 
 
+def _readonly_view(base):
+    v = base.view()
+    v.flags.writeable = False
+    return v
+
+
 def _mutate_in_place(args, rng):
     """Change the previous call's mutable arguments in place (a reused record dict, a refilled buffer): the same
     objects now hold other values.  Returns True if something was changed."""
@@ -189,6 +199,9 @@ def _mutate_in_place(args, rng):
     for a in list(args[0]) + list(args[1].values()):
         if isinstance(a, np.ndarray) and a.size and a.flags.writeable:
             a[rng.randrange(a.size)] = rng.choice([5.0, -7.5, 0.25])
+            done = True
+        elif isinstance(a, np.ndarray) and a.size and isinstance(a.base, np.ndarray) and a.base.flags.writeable:
+            a.base[rng.randrange(a.base.size)] = rng.choice([5.0, -7.5, 0.25])  # the owner refills its buffer
             done = True
         elif isinstance(a, Rec):
             a.x = rng.choice([5.0, -7.5, 0.25])
@@ -212,13 +225,15 @@ def _mutate_in_place(args, rng):
 
 def _clone_arg(a):
     if isinstance(a, np.ndarray):
-        return a.copy()
+        return a.copy() if a.flags.writeable else _readonly_view(a.copy())
     if isinstance(a, dict):
         return {k: _clone_arg(v) for k, v in a.items()}
     if isinstance(a, Rec):
         return Rec(**a.__dict__)
     if type(a).__name__ == "DataFrame":
         return a.copy()
+    if isinstance(a, np.generic):
+        return type(a)(a)  # an equal scalar of the same numpy type
     if isinstance(a, float):
         return float(repr(a)) if a == a else float("nan")
     return a
